@@ -127,7 +127,7 @@ def interval(draw, n, rel):
 
 @st.composite
 def placed_strategy(draw, ctx):
-    sym = [draw(st.sampled_from([-1, 1, 0, -1, 1])) for _ in range(3)]
+    sym = [draw(st.sampled_from([-1, 1, 0])) for _ in range(3)]
     if sym == [0, 0, 0] and draw(st.integers(0, 3)):
         sym[draw(st.integers(0, 2))] = draw(st.sampled_from([-1, 1]))
     shape = [draw(st.sampled_from([4, 6, 8, 10])) for _ in range(3)]
